@@ -1551,7 +1551,8 @@ def battery_replay(name, rec):
     finish_standins()
     for frag, sn in (('continuous_in_unit_cube', 'standin_in_cube_any_prior'), ('pool_continuous', 'standin_in_cube_any_prior'),
                      ('evaluation_budget', 'standin_no_placeholder'), ('no_placeholder', 'standin_no_placeholder'),
-                     ('evaluated_after', 'standin_no_placeholder'), ('reward_is_score_of_candidate', 'standin_no_placeholder')):
+                     ('evaluated_after', 'standin_no_placeholder'), ('reward_is_score_of_candidate', 'standin_no_placeholder'),
+                     ('pool_size', 'standin_eagle_priors')):
         r = STANDIN_RES.get(sn)
         if frag in name and isinstance(r, dict) and r.get('held') is False:
             return {'driver': 'replay/c19_replay.py witness %s' % sn, 'failing_input': r.get('failing_input'), 'bound': r.get('bound')}, True
